@@ -12,6 +12,9 @@ import (
 	"bytes"
 	"compress/gzip"
 	"context"
+	"crypto/hmac"
+	"crypto/sha256"
+	"encoding/base64"
 	"fmt"
 	"io"
 	"net/http"
@@ -43,30 +46,37 @@ const (
 )
 
 type c02Step struct {
-	K string `json:"k"` // H set header, S WriteHeader, W one Write, B one Write of exactly N bytes, M many Writes, Z sleep, C wait ctx.Done, P panic, R read the request body slowly,
+	K string `json:"k"` // H set header, S WriteHeader, W one Write, B one Write of exactly N bytes, M many Writes, L a run of large Writes of S[j] bytes each (different content per Write), Z sleep, C wait ctx.Done, P panic, R read the request body slowly,
 	// I informational response (WriteHeader 100/102/103), F w.(http.Flusher).Flush() if w is one, RF / RH / RD =
-	// http.NewResponseController(w).Flush() / .Hijack() / .SetWriteDeadline+SetReadDeadline (errors ignored)
-	N int `json:"n,omitempty"` // H: kind of key/value (c02HdrVals), P: kind of panic value (c02PanicKinds), B: bytes, // S: status, W: chunk repetitions in the one Write (~9 B each), M: number of one-chunk Writes, Z: ticks, R: ticks slept after every 16 body bytes read
+	// http.NewResponseController(w).Flush() / .Hijack() / .SetWriteDeadline+SetReadDeadline (errors ignored),
+	// PU w.(http.Pusher).Push(...) if w is one (HTTP/2 push: the statement is silent, run for panics / hangs only)
+	N int   `json:"n,omitempty"` // H: kind of key/value (c02HdrVals), P: kind of panic value (c02PanicKinds), B: bytes, // S: status, W: chunk repetitions in the one Write (~9 B each), M: number of one-chunk Writes, Z: ticks, R: ticks slept after every 16 body bytes read
+	S []int `json:"s,omitempty"` // L: the sizes of the Writes of the run
 }
 
 type c02Req struct {
-	At int       `json:"at"`           // arrival, ticks after the start of the group
-	Rt int       `json:"rt,omitempty"` // route index
-	Sv int       `json:"sv,omitempty"` // server: 0, or 1 = the twin server of the case (c02Case.B)
-	DL int       `json:"dl,omitempty"` // the request's context carries a deadline of its own, DL-1 ticks after arrival; 0: none
-	CU bool      `json:"cu,omitempty"` // Content-Length unknown (-1, chunked upload): nothing is declared
-	Up string    `json:"up,omitempty"` // value of an Upgrade request header
-	BL int       `json:"bl,omitempty"` // real body length
-	CL int       `json:"cl,omitempty"` // declared Content-Length
-	Cn int       `json:"cn"`           // client cancel, ticks after arrival; -1: never
-	GZ bool      `json:"gz,omitempty"` // the body is a gzip stream and says so (Content-Encoding: gzip)
-	BB bool      `json:"bb,omitempty"` // the body never delivers: Read blocks until the case is over (the handlers never read it)
+	At int    `json:"at"`           // arrival, ticks after the start of the group
+	Rt int    `json:"rt,omitempty"` // route index
+	Sv int    `json:"sv,omitempty"` // server: 0, or 1 = the twin server of the case (c02Case.B)
+	DL int    `json:"dl,omitempty"` // the request's context carries a deadline of its own, DL-1 ticks after arrival; 0: none
+	CU bool   `json:"cu,omitempty"` // Content-Length unknown (-1, chunked upload): nothing is declared
+	Up string `json:"up,omitempty"` // value of an Upgrade request header
+	BL int    `json:"bl,omitempty"` // real body length
+	CL int    `json:"cl,omitempty"` // declared Content-Length
+	Cn int    `json:"cn"`           // client cancel, ticks after arrival; -1: never
+	GZ bool   `json:"gz,omitempty"` // the body is a gzip stream and says so (Content-Encoding: gzip)
+	BB bool   `json:"bb,omitempty"` // the body never delivers: Read blocks until the case is over (the handlers never read it)
+	TK int    `json:"tk,omitempty"` // route with WithJwtTransition: 1 = the request's token is signed with the previous secret (valid as well)
+	// RB: the handler streams its body through ONE buffer of its own (as io.CopyBuffer, a bufio.Writer or a
+	// pooled encoder buffer do): every Write hands the writer a slice of that buffer, and the handler
+	// overwrites the buffer as soon as the Write has returned (io.Writer: "Write must not retain p")
+	RB bool      `json:"rb,omitempty"`
 	P  []c02Step `json:"p"`
 }
 
 // c02Opt is one api.RouteOption of the list handed to Server.AddRoutes, in list order.
 type c02Opt struct {
-	K string `json:"k"`           // prefix | maxbytes | timeout | priority
+	K string `json:"k"`           // prefix | maxbytes | timeout | priority | jwt (WithJwt) | jwtt (WithJwtTransition) | sig0 (WithSignature, no keys, not strict)
 	N int    `json:"n,omitempty"` // maxbytes: bytes; timeout: ticks (0 in either: back to the Config value)
 	S string `json:"s,omitempty"` // prefix: group
 }
@@ -97,6 +107,14 @@ type c02Case struct {
 	// 0 none, 1 httpx.SetErrorHandler(fn), 2 httpx.SetErrorHandlerCtx(fn); fn maps every
 	// error to 418 + {"c02":"business-error"}
 	EH int `json:"eh,omitempty"`
+	// Full-chain tier only (the guards-only composition ignores them):
+	// MW pass-through user middlewares installed with Server.Use (the first before, the second after the routes are added);
+	// CP Config.CpuThreshold 900 in a process whose shedders are switched off (Mode dev / load.Disable): the shedding
+	// handler and its status-recording writer are in the chain, the shedder itself never drops;
+	// NN Config.Name empty (metrics are named after host:port)
+	MW int  `json:"mw,omitempty"`
+	CP bool `json:"cp,omitempty"`
+	NN bool `json:"nn,omitempty"`
 	// B: a second server lives in the same process for the whole case: other Config, but
 	// the SAME []Route slices and the SAME []RouteOption slices as the first one
 	B *c02Cfg    `json:"b,omitempty"`
@@ -184,6 +202,30 @@ func (c c02Case) routePath(rt int) string {
 	return p
 }
 
+const (
+	c02JwtSecret     = "c02-jwt-secret-new"
+	c02JwtPrevSecret = "c02-jwt-secret-old"
+)
+
+// jwtKind: "" | "jwt" | "jwtt" — the route's jwt option (at most one per route is generated).
+func (c c02Case) jwtKind(rt int) string {
+	for _, o := range c.R[rt].O {
+		if o.K == "jwt" || o.K == "jwtt" {
+			return o.K
+		}
+	}
+	return ""
+}
+
+// c02JwtToken: a valid HS256 token (no expiry) with one custom claim, signed with secret.
+func c02JwtToken(secret string) string {
+	enc := base64.RawURLEncoding.EncodeToString
+	head := enc([]byte(`{"alg":"HS256","typ":"JWT"}`)) + "." + enc([]byte(`{"c02user":"u1"}`))
+	mac := hmac.New(sha256.New, []byte(secret))
+	mac.Write([]byte(head))
+	return head + "." + enc(mac.Sum(nil))
+}
+
 func (c c02Case) optClasses(cls map[string]bool) {
 	for _, r := range c.R {
 		if r.Sh {
@@ -213,26 +255,28 @@ func (c c02Case) optClasses(cls map[string]bool) {
 // reference model of one request (from the statement)
 
 type c02Plan struct {
-	d          int   // deadline in ticks after arrival seen by the timeout guard; -1: none
-	kinds      []int // statuses the timeout response may carry
-	f          int   // instant (ticks after arrival) at which the handler returns or panics
-	panics     bool
-	reads      bool              // the handler reads the request body
-	readAcross bool              // ... and is in the middle of doing so when the deadline fires
-	guard      bool              // the timeout guard stands between the handler and the client (buffering writer)
-	info       bool              // the handler sends informational responses first
-	ctl        bool              // the handler uses Flush / ResponseController
-	bypass     bool              // "Upgrade: websocket": the timeout guard steps aside (hijack path, outside the statement)
-	big        bool              // the handler's body is larger than 1 KB
-	badStatus  bool              // the panic is raised inside WriteHeader by an out-of-range status code
-	code       int               // status of the handler's own response
-	commit     bool              // handler called WriteHeader or Write
-	hdr        map[string]string // marker headers of the handler's own response
-	body       []byte            // body of the handler's own response
-	before     bool              // handler wrote strictly before the deadline
-	after      bool              // handler wrote at/after the deadline
-	risky      bool              // may produce a response >= 500 that the per-route breaker sees
-	behaved    bool              // returns no later than the deadline
+	d           int   // deadline in ticks after arrival seen by the timeout guard; -1: none
+	kinds       []int // statuses the timeout response may carry
+	f           int   // instant (ticks after arrival) at which the handler returns or panics
+	panics      bool
+	reads       bool              // the handler reads the request body
+	readAcross  bool              // ... and is in the middle of doing so when the deadline fires
+	guard       bool              // the timeout guard stands between the handler and the client (buffering writer)
+	info        bool              // the handler sends informational responses first
+	ctl         bool              // the handler uses Flush / ResponseController
+	push        bool              // the handler tries an HTTP/2 push
+	bypass      bool              // "Upgrade: websocket": the timeout guard steps aside (hijack path, outside the statement)
+	big         bool              // the handler's body is larger than 1 KB
+	largeWrites int               // Writes of >= 4 KiB
+	badStatus   bool              // the panic is raised inside WriteHeader by an out-of-range status code
+	code        int               // status of the handler's own response
+	commit      bool              // handler called WriteHeader or Write
+	hdr         map[string]string // marker headers of the handler's own response
+	body        []byte            // body of the handler's own response
+	before      bool              // handler wrote strictly before the deadline
+	after       bool              // handler wrote at/after the deadline
+	risky       bool              // may produce a response >= 500 that the per-route breaker sees
+	behaved     bool              // returns no later than the deadline
 }
 
 // c02BadStatus: codes on which net/http's ResponseWriter.WriteHeader panics ("invalid
@@ -257,6 +301,86 @@ func c02HdrVal(id, step int) string { return fmt.Sprintf("v%d.%d", id, step) }
 
 // c02Bytes: exactly n marker bytes.
 func c02Bytes(id, step, n int) []byte { return c02Chunk(id, step, n/8+1)[:n] }
+
+// c02BytesJ: exactly n marker bytes of Write number j of a run (step L); the content differs from Write to Write.
+func c02BytesJ(id, step, j, n int) []byte {
+	return bytes.Repeat([]byte(fmt.Sprintf("<%s%d.%d.%d>", c02Marker, id, step, j)), n/10+1)[:n]
+}
+
+// c02LargeWrite: from this size on a Write counts as large for the evidence classes.
+const c02LargeWrite = 4096
+
+// c02Emitter performs the body Writes of a handler program. With reuse every Write is made
+// from the one buffer the handler owns: the content is copied into it, the writer gets a
+// slice of it, and once Write has returned the handler overwrites it (it is the handler's
+// again). Without reuse every Write hands over a slice nobody touches afterwards.
+type c02Emitter struct {
+	w     io.Writer
+	reuse bool
+	buf   []byte
+}
+
+func c02NewEmitter(w io.Writer, reuse bool, id int, prog []c02Step) *c02Emitter {
+	e := &c02Emitter{w: w, reuse: reuse}
+	if reuse {
+		max := 16
+		for i, s := range prog {
+			switch s.K {
+			case "W":
+				if n := len(c02Chunk(id, i, 1)) * s.N; n > max {
+					max = n
+				}
+			case "B":
+				if s.N > max {
+					max = s.N
+				}
+			case "L":
+				for _, n := range s.S {
+					if n > max {
+						max = n
+					}
+				}
+			}
+		}
+		e.buf = make([]byte, max)
+	}
+	return e
+}
+
+func (e *c02Emitter) write(b []byte) {
+	if !e.reuse {
+		e.w.Write(b)
+		return
+	}
+	if len(b) > len(e.buf) {
+		e.buf = make([]byte, len(b))
+	}
+	p := e.buf[:copy(e.buf, b)]
+	e.w.Write(p)
+	for off := 0; off < len(p); { // the handler's buffer again: scribble over what was written
+		off += copy(p[off:], c02Scribble)
+	}
+}
+
+var c02Scribble = bytes.Repeat([]byte{'#'}, 1<<16)
+
+// c02WriteStep performs a body step (W, B, M, L) of a handler program.
+func c02WriteStep(e *c02Emitter, id, i int, s c02Step) {
+	switch s.K {
+	case "W":
+		e.write(c02Chunk(id, i, s.N))
+	case "B":
+		e.write(c02Bytes(id, i, s.N))
+	case "M":
+		for j := 0; j < s.N; j++ {
+			e.write(c02Chunk(id, i, 1))
+		}
+	case "L":
+		for j, n := range s.S {
+			e.write(c02BytesJ(id, i, j, n))
+		}
+	}
+}
 
 var c02HdrKinds = []string{"plain", "empty-value", "format-verbs", "multi-byte", "4KB-value", "two-values", "non-canonical-key"}
 
@@ -313,8 +437,19 @@ func c02Panic(kind, id int) {
 // c02MakePlan interprets the handler program symbolically: 30 lines of
 // http.ResponseWriter semantics (first status wins, implicit 200, body =
 // concatenation of the writes, headers set before the first write).
-func c02MakePlan(c c02Case, id int, q c02Req) c02Plan {
+func c02MakePlan(c c02Case, id int, q c02Req) c02Plan { return c02MakePlanX(c, id, q, true) }
+
+// c02MakePlanX with withBody == false leaves c02Plan.body empty (the generator and the
+// validity check only need instants and flags; large bodies are built once per run).
+func c02MakePlanX(c c02Case, id int, q c02Req, withBody bool) c02Plan {
 	p := c02Plan{d: -1, hdr: map[string]string{}, code: http.StatusOK}
+	bodyLen := 0
+	add := func(b func() []byte, n int) {
+		bodyLen += n
+		if withBody {
+			p.body = append(p.body, b()...)
+		}
+	}
 	t := c.timeoutTicks(q.Sv, q.Rt)
 	p.bypass = q.Up == "websocket" && t > 0
 	p.guard = t > 0 && !p.bypass
@@ -368,6 +503,8 @@ loop:
 				p.commit = true
 				wrote()
 			}
+		case "PU":
+			p.push = true // HTTP/2 push attempt: says nothing about this response (statement silent)
 		case "RH", "RD":
 			p.ctl = true // not supported by any writer of the chain in front of this client: no effect
 		case "S":
@@ -385,14 +522,27 @@ loop:
 				p.risky = true
 			}
 			wrote()
-		case "W", "M", "B":
+		case "W", "M", "B", "L":
 			p.commit = true
-			if s.K == "B" {
-				p.body = append(p.body, c02Bytes(id, i, s.N)...)
-			} else {
-				p.body = append(p.body, c02Chunk(id, i, s.N)...)
+			i, s := i, s
+			switch s.K {
+			case "B":
+				add(func() []byte { return c02Bytes(id, i, s.N) }, s.N)
+			case "L":
+				for j, n := range s.S {
+					j, n := j, n
+					add(func() []byte { return c02BytesJ(id, i, j, n) }, n)
+					if n >= c02LargeWrite {
+						p.largeWrites++
+					}
+				}
+			default:
+				add(func() []byte { return c02Chunk(id, i, s.N) }, s.N*len(c02Chunk(id, i, 1)))
 			}
-			if len(p.body) > 1024 {
+			if s.K == "B" && s.N >= c02LargeWrite || s.K == "W" && s.N*len(c02Chunk(id, i, 1)) >= c02LargeWrite {
+				p.largeWrites++
+			}
+			if bodyLen > 1024 {
 				p.big = true
 			}
 			wrote()
@@ -438,6 +588,7 @@ type c02Rec struct {
 	whCalls int   // WriteHeader calls with a final status
 	info    []int // informational statuses (1xx) sent before the final one
 	flushes int   // Flush calls that reached the client side
+	pushes  int   // Push calls that reached the client side
 	closed  bool
 	late    []string
 }
@@ -456,6 +607,17 @@ func (r *c02Rec) Flush() {
 }
 
 func (r *c02Rec) Header() http.Header { return r.hdr }
+
+// Push makes the recording client an http.Pusher (as an HTTP/2 connection's writer is); pushes are counted, not judged.
+func (r *c02Rec) Push(string, *http.PushOptions) error {
+	r.mu.Lock()
+	defer r.mu.Unlock()
+	if r.closed {
+		r.late = append(r.late, "Push()")
+	}
+	r.pushes++
+	return nil
+}
 
 func (r *c02Rec) commitLocked(code int) {
 	if r.snap == nil {
@@ -547,6 +709,10 @@ type c02Obs struct {
 // ---------------------------------------------------------------------------
 // execution
 
+// c02FullChain is set by the full-chain tier (package api): only there do MW / CP / NN and the jwt / signature
+// route options have an effect; the labels of the evidence histogram follow it.
+var c02FullChain bool
+
 type c02Builder func(c c02Case, h http.HandlerFunc) (serve func(slot int, w http.ResponseWriter, r *http.Request), err error)
 
 type c02Flat struct {
@@ -593,7 +759,7 @@ func c02Method(m string) string {
 
 // c02Valid re-checks the generator's preconditions (replay files are data).
 func c02Valid(c c02Case) bool {
-	if len(c.R) == 0 || len(c.R) > 3 || c.T < -1 || c.MC < -1 || c.MB < -1 || c.EH < 0 || c.EH > 2 {
+	if len(c.R) == 0 || len(c.R) > 3 || c.T < -1 || c.MC < -1 || c.MB < -1 || c.EH < 0 || c.EH > 2 || c.MW < 0 || c.MW > 2 {
 		return false
 	}
 	if c.B != nil && (c.B.T < -1 || c.B.MC < -1 || c.B.MB < -1) {
@@ -607,6 +773,7 @@ func c02Valid(c c02Case) bool {
 		if len(r.O) > 8 {
 			return false
 		}
+		jwts := 0
 		for _, o := range r.O {
 			switch o.K {
 			case "prefix":
@@ -617,10 +784,15 @@ func c02Valid(c c02Case) bool {
 				if o.N < 0 {
 					return false
 				}
-			case "priority":
+			case "priority", "sig0":
+			case "jwt", "jwtt":
+				jwts++
 			default:
 				return false
 			}
+		}
+		if jwts > 1 {
+			return false
 		}
 		k := c02Method(r.M) + " " + c.routePath(i)
 		if paths[k] {
@@ -632,7 +804,7 @@ func c02Valid(c c02Case) bool {
 	for _, g := range c.G {
 		risky := make([]int, c.slots())
 		for _, q := range g {
-			if q.Rt < 0 || q.Rt >= len(c.R) || q.Sv < 0 || q.Sv >= c.servers() || q.At < 0 || q.BL < 0 || q.CL < 0 || q.DL < 0 || id >= 90 || (q.GZ && q.BB) {
+			if q.Rt < 0 || q.Rt >= len(c.R) || q.Sv < 0 || q.Sv >= c.servers() || q.At < 0 || q.BL < 0 || q.CL < 0 || q.DL < 0 || id >= 90 || (q.GZ && q.BB) || q.TK < 0 || q.TK > 1 {
 				return false
 			}
 			seenWrite := false
@@ -657,6 +829,16 @@ func c02Valid(c c02Case) bool {
 						return false
 					}
 					seenWrite = true
+				case "L":
+					if len(s.S) < 1 || len(s.S) > 8 {
+						return false
+					}
+					for _, n := range s.S {
+						if n < 0 || n > 1<<20+1 {
+							return false
+						}
+					}
+					seenWrite = true
 				case "Z":
 					if s.N < 0 {
 						return false
@@ -672,7 +854,7 @@ func c02Valid(c c02Case) bool {
 					seenWrite = true // keep header steps in front of everything that can send headers
 				case "F", "RF":
 					seenWrite = true
-				case "RH", "RD":
+				case "RH", "RD", "PU":
 				case "C":
 				case "P":
 					if s.N < 0 || s.N >= len(c02PanicKinds) {
@@ -687,7 +869,7 @@ func c02Valid(c c02Case) bool {
 					return false
 				}
 			}
-			if c02MakePlan(c, id, q).risky {
+			if c02MakePlanX(c, id, q, false).risky {
 				risky[c.slot(q.Sv, q.Rt)]++
 			}
 			id++
@@ -739,6 +921,7 @@ func c02Run(t *testing.T, c c02Case, build c02Builder, leakExpected bool) (v kit
 				atomic.AddInt32(&cur[sl], -1)
 				atomic.AddInt32(&o.exited, 1)
 			}()
+			em := c02NewEmitter(w, q.RB, id, q.P)
 			for i, s := range q.P {
 				switch s.K {
 				case "H":
@@ -761,14 +944,12 @@ func c02Run(t *testing.T, c c02Case, build c02Builder, leakExpected bool) (v kit
 					rc := http.NewResponseController(w)
 					_ = rc.SetWriteDeadline(time.Now().Add(time.Hour))
 					_ = rc.SetReadDeadline(time.Now().Add(time.Hour))
-				case "W":
-					w.Write(c02Chunk(id, i, s.N))
-				case "B":
-					w.Write(c02Bytes(id, i, s.N))
-				case "M":
-					for j := 0; j < s.N; j++ {
-						w.Write(c02Chunk(id, i, 1))
+				case "PU":
+					if pu, ok := w.(http.Pusher); ok {
+						_ = pu.Push("/c02/pushed", nil)
 					}
+				case "W", "B", "M", "L":
+					c02WriteStep(em, id, i, s)
 				case "Z":
 					time.Sleep(time.Duration(s.N) * c02Tick)
 				case "R":
@@ -853,6 +1034,12 @@ func c02Run(t *testing.T, c c02Case, build c02Builder, leakExpected bool) (v kit
 				if fl.q.Up != "" {
 					r.Header.Set("Upgrade", fl.q.Up)
 					r.Header.Set("Connection", "Upgrade")
+				}
+				switch jk := c.jwtKind(fl.q.Rt); {
+				case jk == "jwtt" && fl.q.TK == 1:
+					r.Header.Set("Authorization", "Bearer "+c02JwtToken(c02JwtPrevSecret))
+				case jk != "":
+					r.Header.Set("Authorization", "Bearer "+c02JwtToken(c02JwtSecret))
 				}
 				r.Header.Set("X-C02-Id", fmt.Sprint(fl.id))
 				serve(c.slot(fl.q.Sv, fl.q.Rt), o.rec, r)
@@ -995,6 +1182,17 @@ func c02Judge(c c02Case, flat []c02Flat, obs []*c02Obs, maxCur []int32, cls map[
 		cls["two-groups"] = true
 	}
 	c.optClasses(cls)
+	if c02FullChain {
+		if c.MW > 0 {
+			cls[fmt.Sprintf("server-use-middlewares-%d", c.MW)] = true
+		}
+		if c.CP {
+			cls["shedding-handler-in-chain(nop shedder)"] = true
+		}
+		if c.NN {
+			cls["config-name-empty"] = true
+		}
+	}
 	cls[[]string{"httpx-globals:none", "httpx-globals:SetErrorHandler", "httpx-globals:SetErrorHandlerCtx"}[c.EH]] = true
 	for _, fl := range flat { // ascending arrival instant
 		o, q, p := obs[fl.id], fl.q, fl.plan
@@ -1164,6 +1362,15 @@ func c02Judge(c c02Case, flat []c02Flat, obs []*c02Obs, maxCur []int32, cls map[
 				}
 			}
 		}
+		if p.push {
+			cls["push-attempt(unspecified)"] = true
+		}
+		if jk := c.jwtKind(q.Rt); jk != "" && c02FullChain {
+			cls["request-with-valid-jwt"] = true
+			if jk == "jwtt" && q.TK == 1 {
+				cls["request-with-valid-jwt:previous-secret"] = true
+			}
+		}
 		if p.ctl {
 			cls["flush/response-controller"] = true
 			if p.guard {
@@ -1252,6 +1459,18 @@ func c02Judge(c c02Case, flat []c02Flat, obs []*c02Obs, maxCur []int32, cls map[
 				cls["client-cancel=timeout"] = true
 			}
 		}
+		if q.RB && p.commit && len(p.body) > 0 {
+			cls["handler-reuses-write-buffer"] = true
+			if p.largeWrites >= 2 {
+				cls["handler-reuses-write-buffer+>=2-writes>=4KiB"] = true
+				if p.guard && (p.d < 0 || p.f <= p.d) && !p.panics {
+					cls["handler-reuses-write-buffer+>=2-writes>=4KiB+behind-guard+in-time"] = true
+				}
+			}
+		}
+		if p.largeWrites >= 2 {
+			cls["run-of-large-writes"] = true
+		}
 		if p.big {
 			cls["body>1KB"] = true
 			if c.V {
@@ -1324,6 +1543,15 @@ func c02Judge(c c02Case, flat []c02Flat, obs []*c02Obs, maxCur []int32, cls map[
 // ---------------------------------------------------------------------------
 // generator
 
+func c02HasJwt(os []c02Opt) bool {
+	for _, o := range os {
+		if o.K == "jwt" || o.K == "jwtt" {
+			return true
+		}
+	}
+	return false
+}
+
 func c02Gen(rt *rapid.T) c02Case { return c02GenFor(false)(rt) }
 
 // c02GenFor(true) additionally draws cases whose composition has no RecoverHandler.
@@ -1372,6 +1600,9 @@ func c02GenCase(rt *rapid.T) c02Case {
 		c.B = &b
 	}
 	c.V = rapid.IntRange(0, 2).Draw(rt, "verbose") == 0
+	c.MW = rapid.SampledFrom([]int{0, 0, 0, 1, 2}).Draw(rt, "middlewares")
+	c.CP = rapid.IntRange(0, 3).Draw(rt, "shedding") == 0
+	c.NN = rapid.IntRange(0, 7).Draw(rt, "noname") == 0
 	nr := rapid.SampledFrom([]int{1, 1, 1, 2}).Draw(rt, "routes")
 	for i := 0; i < nr; i++ {
 		r := c02Route{M: rapid.SampledFrom([]string{"GET", "POST", "PUT", "DELETE", "GET", "POST", "HEAD", "OPTIONS", "PATCH"}).Draw(rt, "method")}
@@ -1380,7 +1611,14 @@ func c02GenCase(rt *rapid.T) c02Case {
 		}
 		if rapid.IntRange(0, 2).Draw(rt, "hasopts") > 0 {
 			for j, n := 0, rapid.IntRange(1, 4).Draw(rt, "nopts"); j < n; j++ {
-				switch rapid.SampledFrom([]string{"prefix", "prefix", "maxbytes", "maxbytes", "timeout", "timeout", "priority"}).Draw(rt, "opt") {
+				switch k := rapid.SampledFrom([]string{"prefix", "prefix", "maxbytes", "maxbytes", "timeout", "timeout", "priority", "prefix", "maxbytes", "timeout", "priority", "jwt", "jwtt", "sig0"}).Draw(rt, "opt"); k {
+				case "jwt", "jwtt":
+					if c02HasJwt(r.O) {
+						k = "priority"
+					}
+					r.O = append(r.O, c02Opt{K: k})
+				case "sig0":
+					r.O = append(r.O, c02Opt{K: "sig0"})
 				case "prefix":
 					r.O = append(r.O, c02Opt{K: "prefix", S: rapid.SampledFrom([]string{"/v1", "/api/v2", "/g"}).Draw(rt, "group")})
 				case "maxbytes":
@@ -1461,10 +1699,14 @@ func c02GenCase(rt *rapid.T) c02Case {
 			}
 			canWait := t > 0 || q.Cn >= 0 || q.DL > 0
 			q.P = c02GenProg(rt, t, canWait, benign || q.Up == "websocket", benign, readable)
-			if benign && c02MakePlan(c, id, q).risky {
+			q.RB = rapid.Bool().Draw(rt, "reusebuf")
+			if c.jwtKind(q.Rt) == "jwtt" && rapid.Bool().Draw(rt, "prevtoken") {
+				q.TK = 1
+			}
+			if benign && c02MakePlanX(c, id, q, false).risky {
 				q.Cn, q.DL = -1, 0 // a deadline at the arrival instant would make even an immediate handler a possible 499/503
 			}
-			if c02MakePlan(c, id, q).risky {
+			if c02MakePlanX(c, id, q, false).risky {
 				risky[c.slot(q.Sv, q.Rt)]++
 			}
 			grp = append(grp, q)
@@ -1512,12 +1754,16 @@ func c02GenProg(rt *rapid.T, t int, canWait, instant, benign bool, readable int)
 		d = 20
 	}
 	n := rapid.IntRange(0, 7).Draw(rt, "steps")
+	runs := rapid.IntRange(0, 2).Draw(rt, "runs") == 0 // this program may stream its body in runs of large Writes
 	var p []c02Step
 	wrote := false
 	infos, flushed := 0, false
 	elapsed := 0
 	for i := 0; i < n; i++ {
-		kinds := []string{"S", "W", "W", "W", "B", "F", "RF", "RH", "RD"}
+		kinds := []string{"S", "W", "W", "W", "B", "F", "RF", "RH", "RD", "PU"}
+		if runs {
+			kinds = append(kinds, "L")
+		}
 		if !wrote && !flushed && infos < 2 {
 			kinds = append(kinds, "I", "I")
 		}
@@ -1546,18 +1792,30 @@ func c02GenProg(rt *rapid.T, t int, canWait, instant, benign bool, readable int)
 		case "I":
 			infos++
 			p = append(p, c02Step{K: "I", N: rapid.SampledFrom([]int{100, 102, 103, 103}).Draw(rt, "info")})
-		case "F", "RF", "RH", "RD":
+		case "F", "RF", "RH", "RD", "PU":
 			p = append(p, c02Step{K: k})
 			flushed = flushed || k == "F" || k == "RF"
 		case "B":
 			bn := rapid.SampledFrom([]int{0, 1, 7, 255, 256, 257, 4095, 4096, 4097}).Draw(rt, "bytes")
 			switch rapid.IntRange(0, 19).Draw(rt, "bsize") {
 			case 0, 1, 2:
-				bn = rapid.SampledFrom([]int{32767, 32768, 32769, 65535, 65536, 65537}).Draw(rt, "kbytes")
+				bn = rapid.SampledFrom([]int{8191, 8192, 8193, 16384, 32767, 32768, 32769, 65535, 65536, 65537}).Draw(rt, "kbytes")
 			case 3:
 				bn = rapid.SampledFrom([]int{1<<20 - 1, 1 << 20, 1<<20 + 1}).Draw(rt, "mibytes")
 			}
 			p = append(p, c02Step{K: "B", N: bn})
+			wrote = true
+		case "L":
+			// a run of 2..5 large Writes, sizes on either side of 8 KiB / 32 KiB / 64 KiB, now and then 1 MiB
+			st := c02Step{K: "L"}
+			for j, m := 0, rapid.IntRange(2, 5).Draw(rt, "lruns"); j < m; j++ {
+				n := rapid.SampledFrom([]int{4096, 4097, 8191, 8192, 8193, 16384, 32767, 32768, 32769, 65535, 65536, 65537}).Draw(rt, "lsize")
+				if rapid.IntRange(0, 59).Draw(rt, "lmib") == 0 {
+					n = rapid.SampledFrom([]int{1<<20 - 1, 1 << 20, 1<<20 + 1}).Draw(rt, "lmibytes")
+				}
+				st.S = append(st.S, n)
+			}
+			p = append(p, st)
 			wrote = true
 		case "S":
 			code := rapid.SampledFrom(codes).Draw(rt, "code")
